@@ -65,6 +65,8 @@ type codec struct {
 	rawHint func(r *rand.Rand) []byte
 	// fixed holds named hand-written values (corpus witnesses independent of the generator).
 	fixed map[string]any
+	// rawExact produces a complete hand-built frame used as is in raw mode (half of the raw cases when set).
+	rawExact func(r *rand.Rand) []byte
 	// rawShare is the percentage of raw-mode cases (default 10); codecs whose interesting
 	// inputs are hand-built frames (TLV fields with odd lengths) ask for more.
 	rawShare int
@@ -221,7 +223,9 @@ func gen(r *rand.Rand, tier string, i int) input {
 		in.Mode = "raw"
 		in.Seed = 0
 		var data []byte
-		if c.rawHint != nil && vh.Chance(r, 0.3) {
+		if c.rawExact != nil && vh.Chance(r, 0.5) {
+			data = c.rawExact(r)
+		} else if c.rawHint != nil && vh.Chance(r, 0.3) {
 			// a plausible frame start, then an inflated declared count / length, then noise
 			h := c.rawHint(r)
 			var buf [10]byte
